@@ -218,8 +218,10 @@ def _query(st, g):
                             st.compared += 1
                             d = cmp_named(named_table(res), ref_named(exp, lab))
                             if d:
+                                dflt = set().union(*[gr.pa[x] for x in xs]) - set(xs)
                                 st.violation("CausalInference.query", "wrong-distribution", case, None, d,
-                                             detail={"multi_do": len(xs) > 1, "do_contains_parent_child": any((a, b) in gr.edges for a in xs for b in xs)})
+                                             detail={"multi_do": len(xs) > 1, "do_contains_parent_child": any((a, b) in gr.edges for a in xs for b in xs),
+                                                     "default_adjustment_contains_descendant_of_do": adj is None and any(z in gr.desc(x) for z in dflt for x in xs)})
                             else:
                                 st.outcome(tuple(sorted(exp.table.values())))
                             if len(xs) == 1:
